@@ -11,8 +11,11 @@
    handler is built by a factory (set_handler(callable)) each time the configuration is asked for it;  plus the
    built-in default command "help".  Every other user command has the same handler object: it writes one
    tagged line per verbosity level (tags 1..4 = NORMAL, VERBOSE, VERY_VERBOSE, DEBUG) to stdout and stderr, asks a
-   ConfirmationQuestion (default yes, the input holds "n"), records what the IO says about itself, then returns 0
-   (beh "ok"), returns 3 ("code") or raises ("raise").
+   ConfirmationQuestion (default yes), then a plain Question and a ChoiceQuestion that have NO default (the input holds
+   "n", "bob", "a" and ends), records what the IO says about itself, then returns 0
+   (beh "ok"), returns 3 ("code"), raises ("raise"), or - "meddle" - turns the quiet flag round and sets the verbosity
+   to DEBUG on its I/O before returning 0 (that I/O belongs to the run: the next run on the SAME application object
+   must not see any of it).  Nothing is stored between runs: every run starts from S0.
 
    A-layer: the run pipeline, one stage per step: create_io -> PRE_RESOLVE (help) -> resolve -> PRE_HANDLE (version)
             -> handler -> error report.  Stage(s) is a function on the state record, so the whole run is also
@@ -55,11 +58,18 @@ StripLits(line) == SelectSeq(line, LAMBDA u : ~SwLit(u))
 HasSwLits(line) == \E i \in 1..Len(line) : SwLit(line[i])
 
 \* ------------------------------------------------------------------ the application
-CmdIds == {"pkg", "srv", "srv add", "srv list", "top", "grp", "grp one", "lazy", "help"}
+\* hub [rest..] has one sub-command for every long and short name of a global switch ("hub n", "hub quiet", ...):
+\* a switch on the line must never be taken for the name of a command
+HubSubs == {"n", "q", "h", "v", "V", "quiet", "ansi", "no-ansi", "help", "version", "verbose", "no-interaction"}
+HubId == [x \in HubSubs |-> "hub " \o x]
+HubIds == {HubId[x] : x \in HubSubs}
+CmdIds == {"pkg", "srv", "srv add", "srv list", "top", "grp", "grp one", "lazy", "hub", "help"} \cup HubIds
 \* handler: "object" (set_handler(instance)), "factory" (set_handler(callable)), "none" (nothing configured: the
 \* placeholder of the configuration has no handle method - running the command is an error)
 Cmd == [c \in CmdIds |->
-          CASE c = "pkg" -> [path |-> <<"pkg">>, dsub |-> "", handler |-> "object"]
+          CASE c \in HubIds -> [path |-> <<"hub", CHOOSE x \in HubSubs : HubId[x] = c>>, dsub |-> "", handler |-> "object"]
+            [] c = "hub" -> [path |-> <<"hub">>, dsub |-> "", handler |-> "object"]
+            [] c = "pkg" -> [path |-> <<"pkg">>, dsub |-> "", handler |-> "object"]
             [] c = "srv" -> [path |-> <<"srv">>, dsub |-> "srv list", handler |-> "object"]
             [] c = "srv add" -> [path |-> <<"srv", "add">>, dsub |-> "", handler |-> "object"]
             [] c = "srv list" -> [path |-> <<"srv", "list">>, dsub |-> "", handler |-> "object"]
@@ -94,8 +104,10 @@ CreateIO(line, streams) ==
       plain == "--no-ansi" \in o
       forced == ~plain /\ "--ansi" \in o
   IN [quiet |-> o \cap QuietT # {}, level |-> Level(line), inter |-> o \cap NoIntT = {},
+      \* streams: which of the two streams say they support ANSI - "none", "both", "out" (only stdout), "err" (only stderr):
+      \* without a switch each output is decided on its own
       decoOut |-> ~plain /\ (forced \/ streams \in {"both", "out"}),
-      decoErr |-> ~plain /\ (forced \/ streams = "both")]
+      decoErr |-> ~plain /\ (forced \/ streams \in {"both", "err"})]
 
 \* HelpTextHandler: the application page without any positional token, else the page of the command that the
 \* leading tokens resolve to (its default sub-command if there is one; the help command itself for an empty lead)
@@ -118,7 +130,7 @@ S0(line, beh, streams) ==
   [line |-> line, beh |-> beh, streams |-> streams, pc |-> "create",
    io |-> [quiet |-> FALSE, level |-> 0, inter |-> TRUE, decoOut |-> FALSE, decoErr |-> FALSE],
    sel |-> "", status |-> -1, calls |-> <<>>, outTags |-> {}, errTags |-> {}, outB |-> FALSE, errB |-> FALSE,
-   page |-> "none", answer |-> "none", consumed |-> 0, seen |-> NoIO, built |-> 0]
+   page |-> "none", answer |-> "none", answer2 |-> "none", consumed |-> 0, seen |-> NoIO, built |-> 0]
 
 Stage(s) ==
   CASE s.pc = "create" -> [s EXCEPT !.io = CreateIO(s.line, s.streams), !.pc = "preresolve"]
@@ -142,7 +154,9 @@ Stage(s) ==
               IN [s EXCEPT !.calls = <<s.sel>>, !.built = IF Cmd[s.sel].handler = "factory" THEN 1 ELSE 0, !.outTags = vis, !.errTags = vis,
                            !.outB = ~s.io.quiet, !.errB = ~s.io.quiet,
                            !.answer = IF s.io.inter THEN "typed" ELSE "default",
-                           !.consumed = IF s.io.inter THEN 1 ELSE 0,
+                           \* the two questions without default: what was typed, or None - never a prompt, never a read
+                           !.answer2 = IF s.io.inter THEN "typed" ELSE "default",
+                           !.consumed = IF s.io.inter THEN 3 ELSE 0,
                            !.seen = [ran |-> TRUE, quiet |-> s.io.quiet, level |-> s.io.level, inter |-> s.io.inter],
                            !.page = "n/a",
                            !.status = IF s.beh = "code" THEN 3 ELSE 0,
@@ -157,8 +171,9 @@ RunAll(s) == IF s.pc = "done" THEN s ELSE RunAll(Stage(s))
 Esc(bytes, deco) == IF ~bytes THEN 0 ELSE IF deco THEN 2 ELSE 1        \* 0 nothing written, 1 text without ESC, 2 ESC
 ObsOf(s) == [status |-> s.status, calls |-> s.calls, outTags |-> s.outTags, errTags |-> s.errTags,
              outEsc |-> Esc(s.outB, s.io.decoOut), errEsc |-> Esc(s.errB, s.io.decoErr),
-             io |-> s.seen, page |-> s.page, answer |-> s.answer, consumed |-> s.consumed,
-             args |-> IF s.calls # <<>> THEN Args(s.line) ELSE <<>>, built |-> s.built]
+             io |-> s.seen, page |-> s.page, answer |-> s.answer, answer2 |-> s.answer2, consumed |-> s.consumed,
+             args |-> IF s.calls # <<>> THEN Args(s.line) ELSE <<>>, built |-> s.built,
+             argsSame |-> TRUE]         \* the RawArgs object holds the same tokens after the run as before
 
 \* ================================================================== P-layer (o: observation with sets for the tags)
 \* "the quiet switch suppresses all output of the run including error reports"
@@ -175,7 +190,12 @@ PAnsi(line, o) == (Given(line, AnsiT) /\ ~Given(line, NoAnsiT)) =>
    /\ ((o.outTags # {} \/ o.page \notin {"none", "n/a", "other"}) => o.outEsc = 2)
    /\ (o.errTags # {} => o.errEsc = 2)
 \* "the no-interaction switch makes questions return their defaults" - without reading
-PNoInteraction(line, o) == (Given(line, NoIntT) /\ o.io.ran) => (o.answer = "default" /\ o.consumed = 0 /\ ~o.io.inter)
+\* (a question without a default returns None, its default)
+PNoInteraction(line, o) == (Given(line, NoIntT) /\ o.io.ran) =>
+   (o.answer = "default" /\ o.answer2 = "default" /\ o.consumed = 0 /\ ~o.io.inter)
+\* the switches have the listed effects and no other: they never choose the command - the handler that runs is the one
+\* of the command named by the path (its default sub-command), however many switches follow and whatever they are called
+PCommand(line, o) == (InScope(line) /\ o.calls # <<>>) => o.calls = <<RunsFor(Walk(Lead(line)))>>
 \* "the help switch placed after the command path prints that command's help ... status 0 ... without invoking the handler"
 \* (the command named by the path, or the default sub-command that runs for it; no path: the application's page or the
 \*  page of the built-in default command; quiet prints nothing; with the version switch either text may come out)
@@ -195,7 +215,7 @@ PVersion(line, o) == (Given(line, VersionT) /\ InScope(line)) =>
 \* apart from the positional arguments the handler receives (ob: observation of StripLits(line))
 SameRun(o, ob) == /\ o.status = ob.status /\ o.calls = ob.calls /\ o.outTags = ob.outTags /\ o.errTags = ob.errTags
                   /\ o.outEsc = ob.outEsc /\ o.errEsc = ob.errEsc /\ o.io = ob.io /\ o.page = ob.page
-                  /\ o.answer = ob.answer /\ o.consumed = ob.consumed
+                  /\ o.answer = ob.answer /\ o.answer2 = ob.answer2 /\ o.consumed = ob.consumed
 \* the values after "--" are the last ones the handler receives: the other run's, with the look-alikes among them
 ArgsOK(line, o, ob) ==
   LET all == Tokens(Lits(line))
@@ -205,5 +225,5 @@ ArgsOK(line, o, ob) ==
 PAfterDD(line, o, ob) == HasSwLits(line) => (SameRun(o, ob) /\ (o.io.ran => ArgsOK(line, o, ob)))
 
 PAll(line, o) == /\ PQuiet(line, o) /\ PVerbosity(line, o) /\ PNoAnsi(line, o) /\ PAnsi(line, o)
-                 /\ PNoInteraction(line, o) /\ PHelp(line, o) /\ PVersion(line, o)
+                 /\ PNoInteraction(line, o) /\ PHelp(line, o) /\ PVersion(line, o) /\ PCommand(line, o)
 =============================================================================
